@@ -29,7 +29,7 @@ class Fixer:
         """
         # TODO: implement this!
         if reports:
-            module.source.invalidate()
+            module.source.invalidate(children=True)
         return module
 
     @classmethod
@@ -46,7 +46,9 @@ class Fixer:
             # Apply the changes and invalidate source objects
             subroutine.spec = Transformer(mapper).visit(subroutine.spec)
             subroutine.body = Transformer(mapper).visit(subroutine.body)
-            subroutine.source.invalidate()
+            if subroutine.source.is_valid():
+                # Only children changed, unless a rule invalidated the routine itself
+                subroutine.source.invalidate(children=True)
             parent = subroutine.parent
             while parent is not None:
                 parent.source.invalidate(children=True)
